@@ -8,9 +8,12 @@
  "defines": ["VERIF_HALLOC", "NET_FIXCAP_F"],
  "matrix": {"GSL": [0, 1, 2, 3, 4, 5]},
  "models": ["models/ev_poll.c", "models/ev_atexit.c", "models/ev_selectstats.c", "models/ev_warnp.c"],
- "cbmc": ["--malloc-may-fail", "--malloc-fail-null"],
+ "cbmc": ["--malloc-may-fail", "--malloc-fail-null", "--unwindset", "growsocketlist_wrapped_for_contract_checking.0:5"],
+ "loop_contracts": false,
+ "bounded": true,
+ "bound": "initialisation loop unwound NS_Q+1 = 5 times: complete for <= NS_Q = 4 descriptors (unwinding assertion checked)",
  "timeout": 300,
- "assumptions": ["object-size parameters: <= NS_Q descriptors; capacity of S (records) / new record count are constants per GSL: 0/1 0/4 1/2 1/4 2/3 4/4 (CBMC's realloc model needs concrete sizes); the initialisation loop is closed by its loop contract",
+ "assumptions": ["object-size parameters: <= NS_Q descriptors; capacity of S (records) / new record count are constants per GSL: 0/1 0/4 1/2 1/4 2/3 4/4 (CBMC's realloc model needs concrete sizes)",
                  "elasticarray_resize inlined (real code); CBMC's realloc model (may fail, may move)"]
 }
 */
